@@ -1,5 +1,5 @@
 """C11 — attack geometry tables."""
-from sa.sym import Engine, show, show_cond, subterms, C, is_const, PathLimit, field
+from sa.sym import mk_tuple, Engine, show, show_cond, subterms, C, is_const, PathLimit, field
 from sa.evalterm import ev, Unevaluable, geom, KNIGHT, KING, ROOK_DIRS, BISHOP_DIRS, ray_attacks, relevant_mask, subsets
 from .common import *
 from .tables import is_true, is_false
@@ -212,14 +212,21 @@ def r2_deltas(ctx):
         for e in calls:
             size, deltas, magics = e[2]
             dl = deltas
-            while dl[0] == 'ref':
-                dl = dl[1][1] if dl[1][0] == 'K' else dl
-                if dl[0] == 'ref':
+            for _ in range(6):
+                if dl[0] == 'ref' and dl[1][0] == 'K':
+                    dl = dl[1][1]
+                elif dl[0] in ('der', 'K'):
+                    dl = dl[1]
+                elif dl[0] == 'named':
+                    from sa.sym import NAMED_CONSTS as _NC
+                    dl = _NC.get(dl[1], ('unk',))
+                else:
                     break
             vals = []
             if dl[0] == 'agg':
                 for _, x in dl[4]:
-                    if x[0] == 'agg' and x[1] == 'tuple':
+                    # a direction is a pair of small integers: a tuple or a two-field struct
+                    if x[0] == 'agg' and x[1] in ('tuple', 'adt') and len(x[4]) == 2 and all(is_const(y) for _, y in x[4]):
                         vals.append(tuple(y[1] for _, y in x[4]))
             sz = show(size)
             key = 'rook' if 'ROOK' in sz else ('bishop' if 'BISHOP' in sz else sz)
@@ -264,23 +271,47 @@ def r2_deltas(ctx):
     ctx.ob(rule, SQ_ + 'to_rank_file', 'rank/file numbering is a bijection of the 64 squares onto 0..8 x 0..8', len(rf) == 64 and len(inv) == 64 and
            set(inv) == {(r_, f_) for r_ in range(8) for f_ in range(8)}, found=len(inv), expected=64, nontrivial=False)
 
+    BBT = 'common::bitboard::bitboard::Bitboard'
+
+    def pair_arg(f, i_):
+        """constructor of the i-th argument from (a, b) when that parameter is a pair of i8: a tuple or a struct with exactly two i8 fields"""
+        ty = f.local_ty(i_)
+        if ty.replace(' ', '') == '(i8,i8)':
+            return lambda a, b: mk_tuple(C(a), C(b))
+        adt = facts.adts.get(ty)
+        if adt is not None and adt['kind'] == 'struct' and [fd['ty'] for fd in adt['variants'][0]['fields']] == ['i8', 'i8']:
+            v0 = adt['variants'][0]
+            names_ = [fd['name'] for fd in v0['fields']]
+            return lambda a, b: ('agg', 'adt', ty, v0['name'], ((names_[0], C(a)), (names_[1], C(b))))
+        return None
+
     def step_fn(prefix):
-        c = [n for n, f in facts.fns.items() if n.startswith(prefix) and f.kind != 'Closure' and n.count('::') == prefix.count('::')
-             and (f.raw.get('sig') or '').replace(' ', '').endswith('fn(common::bitboard::bitboard::Bitboard,i8,i8)->std::option::Option<common::bitboard::bitboard::Bitboard>')]
+        c = []
+        for n, f in facts.fns.items():
+            if not (n.startswith(prefix) and f.kind != 'Closure' and n.count('::') == prefix.count('::')):
+                continue
+            if f.local_ty(0) != 'std::option::Option<%s>' % BBT or f.arg_count < 2 or f.local_ty(1) != BBT:
+                continue
+            if f.arg_count == 3 and f.local_ty(2) == 'i8' and f.local_ty(3) == 'i8':
+                c.append((n, lambda a, b: [C(a), C(b)]))
+            elif f.arg_count == 2 and pair_arg(f, 2) is not None:
+                mk = pair_arg(f, 2)
+                c.append((n, lambda a, b, mk=mk: [mk(a, b)]))
         return c[0] if len(c) == 1 else None
     tries = {}
     for side, prefix in (('engine', MT), ('generator', PM)):
-        tn = step_fn(prefix)
+        sf = step_fn(prefix)
+        tn = sf[0] if sf else None
         tries[side] = tn
         if tn is None:
-            ctx.anchor_missing(rule, prefix + 'try_offset', 'expected one step function (Bitboard, i8, i8) -> Option<Bitboard>')
+            ctx.anchor_missing(rule, prefix + 'try_offset', 'expected one step function (Bitboard, <pair of i8>) -> Option<Bitboard>')
             continue
         ctx.touch(tn)
         bad = []
         for i in range(64):
             for dr in (-1, 0, 1):
                 for df in (-1, 0, 1):
-                    outs1 = [o for o in Engine(facts).run(tn, args=[bb(1 << i), C(dr), C(df)]) if o.kind != 'abort']
+                    outs1 = [o for o in Engine(facts).run(tn, args=[bb(1 << i)] + sf[1](dr, df)) if o.kind != 'abort']
                     r_, f_ = rf.get(i, (None, None))
                     want = inv.get((r_ + dr, f_ + df)) if r_ is not None else None
                     got = '?'
@@ -398,14 +429,25 @@ def ray_walker(ctx, rule, name, try_name, sq_param, bl_param, deltas_ok, single=
         while t_[0] in ('ref', 'der'):
             t_ = t_[1]
         return (t_[1], t_[2]) if t_[0] == 'fld' else (None, None)
-    e1, f1 = el_of(T[2][1])
-    e2, f2 = el_of(T[2][2])
-    if single is None:
-        ctx.ob(rule, name, 'step direction = (d_rank, d_file) of one element of the direction list', e1 is not None and e1 == e2 and (f1, f2) == ('0', '1'),
-               found=[show(T[2][1]), show(T[2][2])], expected='try_offset(ray, d_rank, d_file)')
+    if len(T[2]) == 2:
+        # the step takes the direction as one value: it must be the element of the direction list the outer iteration is at
+        dterm = strip_cast(T[2][1])
+        while dterm[0] in ('ref', 'der', 'K'):
+            dterm = dterm[1]
+        if single is None:
+            ctx.ob(rule, name, 'step direction = one element of the direction list', is_iteration_element(dterm), found=[show(T[2][1])],
+                   expected='try_offset(ray, delta) with delta the current element of the list')
+        else:
+            ctx.ob(rule, name, 'the helper steps in the direction it was given', dterm == ('p', single[0]), found=[show(T[2][1])])
     else:
-        ctx.ob(rule, name, 'the helper steps in the direction it was given', (strip_cast(T[2][1]), strip_cast(T[2][2])) == (('p', single[0]), ('p', single[1])),
-               found=[show(T[2][1]), show(T[2][2])], expected='try_offset(ray, d_rank, d_file)')
+        e1, f1 = el_of(T[2][1])
+        e2, f2 = el_of(T[2][2])
+        if single is None:
+            ctx.ob(rule, name, 'step direction = (d_rank, d_file) of one element of the direction list', e1 is not None and e1 == e2 and (f1, f2) == ('0', '1'),
+                   found=[show(T[2][1]), show(T[2][2])], expected='try_offset(ray, d_rank, d_file)')
+        else:
+            ctx.ob(rule, name, 'the helper steps in the direction it was given', (strip_cast(T[2][1]), strip_cast(T[2][2])) == (('p', single[0]), ('p', single[1])),
+                   found=[show(T[2][1]), show(T[2][2])], expected='try_offset(ray, d_rank, d_file)')
     heads = {}
     for o in outs:
         for e in o.events:
